@@ -607,6 +607,39 @@ pub fn class6(text: &str, cfg: &LuaFormatConfig, for_failure: bool) -> Option<&'
         return Some("relayout-only:line-width-limit-forces-line-breaks");
     }
     // (an over-long line left by the first pass alone was not seen to fail after fix d2ac096: no finding)
+    // the same source-dependence as the one fixed for call arguments (d2ac096) remains in statement value lists:
+    // `local a, b = { f = function() x() y() end }, 1` — the first of several values is a one-line table/function
+    // that the printer has to break; `should_preserve_first_multiline_statement_value` reads the source layout
+    let must_break = |c: &emmylua_parser::LuaSyntaxNode| -> bool {
+        // a function that is not `function(...) return <one expr> end`
+        c.kind() == LuaKind::Syntax(LuaSyntaxKind::ClosureExpr)
+            && c.children().find(|b| b.kind() == LuaKind::Syntax(LuaSyntaxKind::Block)).map(|b| {
+                let stats: Vec<_> = b.children().collect();
+                !(stats.len() == 1
+                    && stats[0].kind() == LuaKind::Syntax(LuaSyntaxKind::ReturnStat)
+                    && stats[0].children().count() == 1)
+            }).unwrap_or(true)
+    };
+    let first_value_breaks = root.descendants().any(|n| {
+        matches!(n.kind(), LuaKind::Syntax(LuaSyntaxKind::TableArrayExpr | LuaSyntaxKind::TableObjectExpr | LuaSyntaxKind::ClosureExpr))
+            && !n.text().contains_char('\n')
+            && n.parent().is_some_and(|p| matches!(p.kind(), LuaKind::Syntax(LuaSyntaxKind::LocalStat | LuaSyntaxKind::AssignStat | LuaSyntaxKind::ReturnStat)))
+            && n.descendants().any(|c| must_break(&c))
+            && {
+                // followed by a comma: there are further values
+                let mut next = n.next_sibling_or_token();
+                loop {
+                    match next {
+                        Some(e) if matches!(e.kind(), LuaKind::Token(LuaTokenKind::TkWhitespace | LuaTokenKind::TkEndOfLine)) => next = e.next_sibling_or_token(),
+                        Some(e) => break e.kind() == LuaKind::Token(LuaTokenKind::TkComma),
+                        None => break false,
+                    }
+                }
+            }
+    });
+    if first_value_breaks {
+        return Some("relayout-only:statement-value-list-starting-with-one-line-table-or-function-that-must-break");
+    }
     // (a function body written on one line inside call arguments needed two passes before fix d2ac096; the class
     // has no failing member any more and is not a finding: 0 of 4082 members over three thorough seeds)
     None
@@ -720,6 +753,11 @@ pub fn run(args: &Args, report: &mut Report) {
         "while x do\n  break -- b\nend\ngoto done -- g\n::done:: -- l\nreturn 1 -- r\n",
         "---@class (exact) A some desc\n---@class Bcd other\nlocal t = {}\n",
         "local s = 'C:\\\\dir\\\\\"'\nlocal t = \"it's\"\nlocal u = 'say \"x\"'\n", "x = 1 -- last",
+        // token-fusion adjacency: a bracket key / index whose leftmost token is a long-bracket string, `- -`, number `..`
+        "t[ [[a]] .. b ] = 1\nu = { [ [=[a]=] .. b ] = 1, [ [[k]] ] = 2 }\nv = t[ [[a]] == b ]\nw = t[ ([[a]]):len() ]\nx = t[ [[a]] .. [[b]] ]\ny = t[ #[[a]] ][ [==[ x ]] y ]==] ]\nz = f [[s]]\nq = t[ f [[s]] ]\n",
+        "y = a - -b - - -c\nz = 1 .. x .. 2 .. .5 .. 1.5 .. ...\nlocal c <const> = 1\nlocal d <close>, e <const> = nil, [[s]]\ndo\n  goto l1\n  ::l1:: ::l2::\nend\n",
+        // one-line closures whose body is a return with 0 / 2 / 3 values, a call, varargs — in every argument position and inside table arguments
+        "foo(a, function() return x, y end)\nfoo(function() return end, b)\nfoo(a, function() return x, y, z end, function() return f() end)\nfoo(a, function(...) return ... end)\nbar({ k = function() return x, y end, 1 }, c)\nbaz(function() return x end)\nqux(a, { function() return end, function() return 1, 2 end }, function() return x end)\n",
         "x = --a\n 1\nz, w = 1, -- c\n 2 -- d\nlocal p = -- e\n 3 -- f\nreturn x, -- g\n y -- h\n",
         "---@alias A<T> T -?\n---@alias (partial) Bcd<K, V> table<K, V>\nlocal x\n---@alias Opt\n---|> \"collect\" # full\n---| \"stop\" # stops\n---@alias Other string\nlocal y\n",
         "local a = 1 -- one\nlocal bcd = 22 -- two\nfoo(a, function() x() y() end, function() z() w() end)\n",
